@@ -72,6 +72,12 @@ def gen_shape(rng, allow_nonconvex=True, lo=0.5, hi=4.0):
 
 def gen_pair(rng, idx):
     a, b = gen_shape(rng), gen_shape(rng)
+    planar_pair = rng.random() < 0.15       # both planar boxes: Object.intersects / minimumDistanceTo fast paths
+    if planar_pair:
+        for o in (a, b):
+            o.pop("pieces", None)
+            o.update(shape="box", dims=[rng.uniform(0.5, 4.0) for _ in range(3)])
+            o["size"] = max(o["dims"]) / 2
     base = [rng.uniform(-100, 100) for _ in range(3)] if rng.random() < 0.7 else [0.0, 0.0, 0.0]
     a["pos"] = base
     m = rng.random()
@@ -85,7 +91,7 @@ def gen_pair(rng, idx):
     dirv = [math.cos(th) * math.cos(ph), math.sin(th) * math.cos(ph), math.sin(ph)]
     r = (a["size"] + b["size"]) * s
     b["pos"] = [base[i] + r * dirv[i] for i in range(3)]
-    if a["shape"] == "box" and b["shape"] == "box" and rng.random() < 0.5:   # planar boxes: fast path incl. equal z
+    if a["shape"] == "box" and b["shape"] == "box" and (planar_pair or rng.random() < 0.5):   # planar boxes: fast path incl. equal z
         for o in (a, b):
             o.update(pitch=0.0, roll=0.0)
         k = rng.random()
